@@ -74,3 +74,26 @@ Proof.
   eexists. split; [vm_compute; reflexivity|]. split; [discriminate|]. split; [|vm_compute; reflexivity].
   repeat constructor; discriminate.
 Qed.
+
+(* ================================================================== tie to the code (regenerated on every run)
+   Gen/Pure_gen.v is go2v's statement-by-statement translation of func parsePath in /repo's CURRENT keyvalues.go
+   (Crash = a run-time panic: the index expressions p[0], p[1] of the Go code).  It IS the model's [parse_path],
+   for every path string; in particular the translated code never panics. *)
+From Mxj Require Import Gen.Setters_gen Gen.PureSupport Gen.Pure_gen GenProofs.PureG2.
+
+Theorem C07_parse_path_code_is_model : forall st path,
+  fn_parsePath st path =
+    match parse_path path with Ok ks => Ret (Ok (map to_key ks)) | Err e => Ret (Err e) | Panic => Crash end.
+Proof. exact parse_path_code_is_model. Qed.
+Print Assumptions C07_parse_path_code_is_model.
+
+Theorem C07_parse_path_code_no_panic : forall st path, fn_parsePath st path <> Crash.
+Proof. exact parse_path_code_no_panic. Qed.
+Print Assumptions C07_parse_path_code_no_panic.
+
+Example C07_parse_path_code_nonvacuous :
+  fn_parsePath gstate0 (s "doc.items[1].sub..list[0]") =
+    Ret (Ok [mk_key (s "doc") false 0; mk_key (s "items") true 1; mk_key (s "sub") false 0; mk_key (s "list") true 0]) /\
+  fn_parsePath gstate0 (s "a[-1]") = Ret (Err EOther) /\ fn_parsePath gstate0 (s "a[") = Ret (Err EOther) /\
+  fn_parsePath gstate0 (s "k][1]") = Ret (Ok [mk_key (s "k]") true 1]).
+Proof. vm_compute. repeat split. Qed.
